@@ -40,7 +40,7 @@ def std(value, unit):
 STD = REG.add(Contract(
     "writer.standardize_value", params={"value": OBJ, "unit": OBJ},
     ensures=lambda c: [("result", c.eng.to_obj(c.res) == std(c.a["value"].t, c.a["unit"].t))],
-    returns=OBJ, properties=("C03", "C11", "C16"), noraise=True, merge=False))
+    returns=OBJ, properties=("C03", "C11", "C16", "C12"), noraise=True, merge=False))
 
 # ---- order function abstraction used when a function receives `order_func` as a parameter
 ordsel = z3.Function("order_is_value_first", S, B)
@@ -93,7 +93,7 @@ GSW = REG.add(Contract(
     ensures=gsw_post,
     loops={0: gsw_inv}, local_types={"middle_widths": LIST(INT)},
     returns=lambda c: VDict({"left_width": VInt(z3.Int(fresh_name("left_width"))), "middle_width": VInt(z3.Int(fresh_name("middle_width")))}),
-    properties=("C03", "C11", "C16"), noraise=True))
+    properties=("C03", "C11", "C16", "C12"), noraise=True))
 
 
 # ---------------------------------------------------------------- LASFile model (sections as fields)
@@ -214,7 +214,7 @@ def make_w3(section, field, anchor_name, with_std):
         modifies=({"value": only_section_items(field)} if with_std else {}),
         pad_obligation=True, reveal=("obj",), prune=True, hooks={"lines.append(line)": w3_line_hook},
         verify_with=verify_with,
-        properties=("C03", "C11", "C16", "C13"), noraise=True)
+        properties=("C03", "C11", "C16", "C13", "C12"), noraise=True)
     c.loop_by_anchor = True
     if with_std:
         c.loops = {0: w3_loop_std(field), 1: w3_loop_fmt(field, True)}
